@@ -1,16 +1,35 @@
 import Tahoe.Sftp.LemmasMain
+import Tahoe.Sftp.LemmasLive
 /-! C39 — SFTP writes are never lost to the background download (property theorems; the model is
 `Tahoe/Sftp/Consumer.lean`, the invariant and the notion of an allowed history are in
 `Tahoe/Sftp/Inv.lean`, helper lemmas in `Tahoe/Sftp/Lemmas*.lean`).
 
-`Variant.fixed` is `OverwriteableFileConsumer` with fixes/C39-overwrite-merge.diff (`end = max(end, end1)`
-in the merge loop of `write`); `Variant.asIs` is the code as it is, for which the property is false.
+`Variant.fixed` is `OverwriteableFileConsumer` as it now is in /repo (fixes/C39-overwrite-merge.diff,
+`end = max(end, end1)` in the merge loop of `write`, is committed there); `Variant.asIs` is the code
+before that fix, for which the property is false (counterexample below).
 
 A history is *allowed* (`WF`) when the client obeys the contract in `read`'s docstring (no overwrite
 or size change while a read's Deferred is unfired, none after `close`) and `download_done(bytes)`
 arrives only after the producer delivered the whole original (the wiring in `GeneralSFTPFile.open`).
-Download chunks of any sizes, eventual-queue turns, reads, a failing download and `close` may be
-interleaved in any order. -/
+Download chunks of any sizes, eventual-queue turns, reads (several may be pending; they complete in
+milestone order through the FIFO eventual queue), a failing download and `close` may be interleaved
+in any order.
+
+## Coverage of the statement
+
+| clause of the statement (properties.jsonl C39)                                   | theorem(s) on the model |
+|---|---|
+| "for any interleaving of the background download … with client writes, truncations and reads" | the quantification of `refines_reference`: every `orig`, every allowed `es : List Ev` (chunks of any size, overwrite, setSize = truncate/extend, read, flush, done ok/fail, close), no length bound |
+| every read equals the original contents with the client's writes and size changes applied in order | `refines_reference` (first conjunct: data = `pread ref off len`, EOF only at/after the reference's end, failure only after a failed download or close), the reference being the one current when the read completes; `reference_frozen_while_read_pending`: that is also the reference when the read was issued (the argument that a read stays in `ms`/`queue` from issue to completion is by inspection of the model, not a theorem) |
+| the contents finally uploaded equal … | `refines_reference` (second conjunct, at every point of the history once `done_status` is success and until `close`), `final_file_is_reference` (end of the history, against `refRun`) |
+| client writes always take precedence over downloaded data that arrives later | `client_write_beats_later_download` |
+| truncation / extension semantics (size changes "applied in order")              | part of the reference (`refStep`: truncate = `take`, extend = zero fill; write past EOF zero-fills the hole) and so of the three theorems above |
+| the three code paths hit by the seeded changes: merge loop of `write` (`mergeRun`), `set_current_size` leaving the heap alone on truncation (`setSize`), `overwrite` recording every region with `end > downloaded` also across the frontier (`overwrite`) | all inside `refines_reference` (lemmas `writeLoop_inv`, `setSize_inv`, `overwrite_inv0`); each is also compared with the real class after every event (heap contents included) |
+| the code before the fix violates the statement                                   | `asIs_clobbers_client_write_counterexample` |
+| every read is eventually answered (liveness; not claimed by the statement)       | `reads_answered_once_done` (no milestone survives `done_status`; one queue turn answers all fired reads); that the download does end is the environment's part |
+| `GeneralSFTPFile` (the caller) honours the contract                             | not covered — it does not (see the last `example`); outside the anchors of C39 |
+| two pending reads with equal milestone index (`heapq` compares Deferreds → TypeError) | outside the model; noted in harness/props/c39.py |
+-/
 namespace Tahoe.C39
 open Tahoe.Sftp
 
@@ -51,6 +70,61 @@ def probe : List Ev :=
    .done true, .read 4 8, .flush]
 
 def probeOrig : Bytes := [65, 66, 67, 68, 69, 70, 71, 72, 73, 74, 75, 76, 77, 78, 79, 80, 81, 82, 83, 84]
+
+/-- Client writes take precedence over downloaded data that arrives later: after a client write of
+`data` at `off`, whatever download chunks (of any sizes), queue turns, reads and `download_done` follow,
+once the download is reported done the temporary file holds exactly `data` at `off` — for every
+allowed history `es` before the write (so for every state of the heaps and of `downloaded`, whether the
+write lies ahead of, behind, or across the download frontier). -/
+theorem client_write_beats_later_download (orig : Bytes) (es ds : List Ev) (off : Nat) (data : Bytes)
+    (hds : ∀ e ∈ ds, e.keepsRef = true)
+    (hwf : WF .fixed orig (init orig) (es ++ .overwrite off data :: ds))
+    (hd : (run .fixed orig (init orig) (es ++ .overwrite off data :: ds)).1.done = .ok)
+    (hc : (run .fixed orig (init orig) (es ++ .overwrite off data :: ds)).1.closed = false) :
+    pread (run .fixed orig (init orig) (es ++ .overwrite off data :: ds)).1.f off data.length = data := by
+  rw [final_file_is_reference orig _ hwf hd hc]
+  simp only [refRun, List.foldl_append, List.foldl_cons, refStep]
+  rw [foldl_refStep_keepsRef ds _ hds, pread_refWrite]
+
+/-- non-vacuity: a write across the download frontier (start < downloaded < end), then the rest of the
+download in two chunks (the situation of seeded change C39-c) -/
+example : let es : List Ev := [.chunk 6]
+    let ds : List Ev := [.chunk 3, .flush, .chunk 40, .done true]
+    (∀ e ∈ ds, e.keepsRef = true)
+    ∧ WF .fixed probeOrig (init probeOrig) (es ++ .overwrite 4 [200, 201, 202, 203, 204] :: ds)
+    ∧ (run .fixed probeOrig (init probeOrig) (es ++ .overwrite 4 [200, 201, 202, 203, 204] :: ds)).1.done = .ok
+    ∧ (run .fixed probeOrig (init probeOrig) (es ++ .overwrite 4 [200, 201, 202, 203, 204] :: ds)).1.f
+        = [65, 66, 67, 68, 200, 201, 202, 203, 204, 74, 75, 76, 77, 78, 79, 80, 81, 82, 83, 84] := by
+  decide
+
+/-- No read is left waiting: for every history whatsoever (allowed or not, either variant), once
+`done_status` is set — download finished, failed, size changed below `downloaded`, or `close` — no read
+waits on a milestone any more, and one turn of the eventual queue answers every read that was fired
+(one answer per queued callback, queue empty afterwards). -/
+theorem reads_answered_once_done (v : Variant) (orig : Bytes) (es : List Ev)
+    (hd : (run v orig (init orig) es).1.done ≠ .running) :
+    (run v orig (init orig) es).1.ms = []
+    ∧ (flush (run v orig (init orig) es).1).1.queue = []
+    ∧ (flush (run v orig (init orig) es).1).2.length = (run v orig (init orig) es).1.queue.length := by
+  refine ⟨run_noWait v orig es (init orig) (fun _ => rfl) hd, rfl, ?_⟩
+  simp [flush]
+
+/-- non-vacuity: two reads wait on milestones (12 and 20) when the download fails; both are answered
+(with a failure) by the next queue turn -/
+example : let h : List Ev := [.read 0 12, .read 5 30, .chunk 3, .done false]
+    (run .fixed probeOrig (init probeOrig) h).1.done = .failed
+    ∧ (run .fixed probeOrig (init probeOrig) h).1.queue.length = 2
+    ∧ (flush (run .fixed probeOrig (init probeOrig) h).1).2 = [⟨0, 0, 12, .fail⟩, ⟨1, 5, 15, .fail⟩] := by
+  decide
+
+/-- what the hypothesis `WF` excludes, and what the code does there: if the caller breaks the contract
+of `read` and writes while a read is pending (as `GeneralSFTPFile.readChunk` does — it drops the
+Deferred of `consumer.read`), the read completes with the *later* write's bytes, not with the contents
+at the time it was issued (reproduced on the real class; outside C39's anchors) -/
+example : let h : List Ev := [.read 0 10, .overwrite 2 [90, 90, 90], .chunk 20, .flush]
+    ¬ WF .fixed probeOrig (init probeOrig) h
+    ∧ (run .fixed probeOrig (init probeOrig) h).2 = [⟨0, 0, 10, .data [65, 66, 90, 90, 90, 70, 71, 72, 73, 74]⟩] := by
+  decide
 
 /-- the code as it is loses a client write: the probe history is allowed, the download is done, and
 the temporary file differs from the reference (bytes 5..9 hold downloaded data) -/
